@@ -14,17 +14,23 @@ GOENV = dict(os.environ, GOFLAGS='-mod=mod', GOPROXY='off', GOSUMDB='off', GOTOO
 
 
 EXTRA = {}   # pkgdir -> [generated harness files] (set by run_generators)
+EXTRA_OVERLAY = {}   # virtual path -> real path: files of /repo replaced by generator output (C09)
 
 
 def run_generators(gens, work):
     """gens: list of (script relative to /verif, pkgdir, output name); regenerated from /repo on every run"""
     EXTRA.clear()
+    EXTRA_OVERLAY.clear()
     for script, pkgdir, name in gens or []:
         out = f'{work}/{name}'
         r = subprocess.run([sys.executable, f'{VERIF}/{script}', REPO, out], capture_output=True, text=True)
         if r.returncode != 0:
             raise RuntimeError(f'generator {script} failed:\n' + r.stderr)
         EXTRA.setdefault(pkgdir, []).append(out)
+        for line in r.stdout.split('\n'):
+            if line.startswith('OVERLAY '):
+                _, virt, real = line.split()
+                EXTRA_OVERLAY[virt] = real
 
 
 def harness_files(p):
@@ -41,6 +47,7 @@ def harness_overlay(pkgs, native=False):
         for f in harness_files(p):
             tgt = REPO + ('/' if p == '.' else f'/{p}/') + 'zz_verif_' + os.path.basename(f)
             ov[tgt] = f
+    ov.update(EXTRA_OVERLAY)
     return ov
 
 
